@@ -141,7 +141,8 @@ impl SatSolver for BufferedSatSolver {
         }
         let solving_result = match status {
             Some(true) => {
-                if assignment_line_seen {
+                // a model which is not terminated by 0 may have been truncated
+                if assignment_line_seen && assignment_line_end {
                     SolvingResult::Satisfiable(Assignment::new(assignment))
                 } else {
                     SolvingResult::Unknown
